@@ -42,7 +42,7 @@ namespace plan
     op.name = name;
     const int K = 8;
     if (name == "class")
-      op.a = {static_cast<long>(r.below(4)), static_cast<long>(r.below(3)), static_cast<long>(r.below(5)), static_cast<long>(r.chance(1, 3) ? 1 : 0)};
+      op.a = {static_cast<long>(r.below(4)), static_cast<long>(r.below(3)), static_cast<long>(r.below(5)), static_cast<long>(r.chance(1, 3) ? 1 : 0), 0, static_cast<long>(r.chance(1, 2) ? r.below(16) : 0)};
     else if (name == "inst")
     {
       op.a.push_back(static_cast<long>(r.below(6)));
